@@ -70,6 +70,7 @@ type recw struct {
 	flushes int
 	rc      int // SetWriteDeadline calls that reached this writer
 	last    int // argument of the last WriteHeader call (what an outer WithCodeResponseWriter records); 200 if none
+	whCalls int // WriteHeader calls received
 	sgid    int64
 	sret    *atomic.Bool
 	late    int
@@ -101,6 +102,7 @@ func (w *recw) WriteHeader(code int) {
 	w.mu.Lock()
 	defer w.mu.Unlock()
 	w.note()
+	w.whCalls++
 	w.writeHeader(code)
 	w.last = code
 }
@@ -256,10 +258,11 @@ type WOut struct {
 	Body    []int  `json:"body"`
 	Infos   []Info `json:"infos"`
 	Flushes int    `json:"flushes"`
-	RC      int    `json:"rc"`      // ResponseController calls (SetWriteDeadline) that reached the real writer
-	Code    int    `json:"code"`    // argument of the last WriteHeader call, 200 if none (the outer middlewares' record)
-	Late    int    `json:"late"`    // real-writer calls after ServeHTTP returned
-	Foreign int    `json:"foreign"` // real-writer calls from another goroutine than ServeHTTP's
+	RC      int    `json:"rc"`       // ResponseController calls (SetWriteDeadline) that reached the real writer
+	Code    int    `json:"code"`     // argument of the last WriteHeader call, 200 if none (the outer middlewares' record)
+	WhCalls int    `json:"wh_calls"` // WriteHeader calls the real writer received (translator's behavioural fallback only)
+	Late    int    `json:"late"`     // real-writer calls after ServeHTTP returned
+	Foreign int    `json:"foreign"`  // real-writer calls from another goroutine than ServeHTTP's
 }
 
 func (w *recw) out() WOut {
@@ -280,6 +283,7 @@ func (w *recw) out() WOut {
 	}
 	o.Flushes = w.flushes
 	o.Code = w.last
+	o.WhCalls = w.whCalls
 	o.RC = w.rc
 	o.Late, o.Foreign = w.late, w.foreign
 	return o
@@ -379,6 +383,109 @@ func doRCDeadline(w http.ResponseWriter) {
 	_ = http.NewResponseController(w).SetWriteDeadline(time.Now().Add(time.Hour))
 }
 
+// ---------------------------------------------------------------------------
+// RecoverHandler inside the timeout middleware (the chain the rest engine builds:
+// Timeout -> Recover -> ... -> route handler).  A panic of the work is recovered in the
+// handler goroutine and answered with w.WriteHeader(500) on the writer the timeout
+// middleware handed down; then the handler returns normally.
+//
+// recGate sits between the RecoverHandler and that writer, so that the recovery's
+// WriteHeader is a scheduled handler action of its own (gate, call, report) and the
+// handler's return after it another one.  The scripted work unwraps it and acts on the
+// timeout middleware's writer itself (optional interfaces included).
+type recGate struct {
+	http.ResponseWriter
+	armed bool // the work has panicked: the next WriteHeader is the RecoverHandler's
+	used  bool
+	gate  func()
+	ack   func(hack)
+}
+
+func (g *recGate) WriteHeader(code int) {
+	if !g.armed || g.used {
+		g.ResponseWriter.WriteHeader(code)
+		return
+	}
+	g.used = true
+	g.gate()
+	g.ResponseWriter.WriteHeader(code)
+	g.ack(hack{obs: []any{"rec", code}})
+}
+
+// underRecover: next(recover(work)) seen from the timeout middleware, with the gate in between.
+func underRecover(recoverMw func(http.Handler) http.Handler, work http.Handler) http.Handler {
+	inner := recoverMw(work)
+	return http.HandlerFunc(func(w http.ResponseWriter, r *http.Request) {
+		g := &recGate{ResponseWriter: w}
+		inner.ServeHTTP(g, r)
+		if g.used {
+			g.gate() // the handler's return, as after a script that ran to its end
+			g.ack(hack{obs: []any{"none"}, ended: true})
+		}
+	})
+}
+
+// unwrapRec: what the scripted work does first: (writer to act on, the gate if there is one)
+func unwrapRec(w http.ResponseWriter) (http.ResponseWriter, *recGate) {
+	if g, ok := w.(*recGate); ok {
+		return g.ResponseWriter, g
+	}
+	return w, nil
+}
+
+// blockedOnWriterLock: some goroutine is parked in Mutex.Lock below go-zero's rest/handler
+// package.  On a tree where every method of the timeout writer releases tw.mu this lasts
+// microseconds; seen for seconds on end it is a hang of the code under test, not load.
+func blockedOnWriterLock() bool {
+	buf := make([]byte, 1<<18)
+	for {
+		n := runtime.Stack(buf, true)
+		if n < len(buf) {
+			buf = buf[:n]
+			break
+		}
+		buf = make([]byte, 2*len(buf))
+	}
+	for _, g := range strings.Split(string(buf), "\n\n") {
+		head, _, _ := strings.Cut(g, "\n")
+		if (strings.Contains(head, "[sync.Mutex.Lock") || strings.Contains(head, "[semacquire")) &&
+			strings.Contains(g, "go-zero/rest/handler.") {
+			return true
+		}
+	}
+	return false
+}
+
+const (
+	hangTick    = 50 * time.Millisecond
+	hangConfirm = 40 // consecutive ticks (2 s) with a goroutine parked on the writer's lock
+	slowLimit   = 5 * time.Second
+)
+
+// waitHack waits for a handler report.  ok: it came.  hung: it did not, and for two
+// seconds on end a goroutine sat on a mutex of rest/handler (a hang of the code under
+// test).  Neither: the machine is too slow (an executor error, not an observation).
+func waitHack(acks <-chan hack) (a hack, ok, hung bool) {
+	t0 := time.Now()
+	seen := 0
+	for time.Since(t0) < slowLimit+2*time.Second {
+		select {
+		case a = <-acks:
+			return a, true, false
+		case <-time.After(hangTick):
+		}
+		if blockedOnWriterLock() {
+			seen++
+			if seen >= hangConfirm {
+				return hack{}, false, true
+			}
+		} else {
+			seen = 0
+		}
+	}
+	return hack{}, false, false
+}
+
 func toBytes(v any) []byte {
 	bs := v.([]any)
 	p := make([]byte, len(bs))
@@ -464,9 +571,12 @@ type SeqCase struct {
 	// (sync.Pool) hand an object released by one request to the very next one.
 	Procs int `json:"procs"`
 	// server cases only
-	ConfMs int64      `json:"conf_ms"`
-	MwTo   bool       `json:"mw_timeout"`
-	Inner  bool       `json:"mw_inner"` // also Recover, Metrics, MaxBytes, Gunzip (they run inside the timeout goroutine)
+	ConfMs int64 `json:"conf_ms"`
+	MwTo   bool  `json:"mw_timeout"`
+	Inner  bool  `json:"mw_inner"` // also Metrics, MaxBytes, Gunzip (they run inside the timeout goroutine)
+	// Rec: the RecoverHandler sits inside the timeout middleware (as in the chain the engine builds).
+	// seq cases: with a gate in between (recGate); server cases: conf.Middlewares.Recover, ungated
+	Rec    bool       `json:"rec"`
 	Groups []SrvGroup `json:"groups"`
 }
 
@@ -497,8 +607,11 @@ type SeqOut struct {
 	Reqs   []SeqReqOut `json:"reqs"`
 	RetAtD int         `json:"ret_at_d"`
 	// Stuck >= 0: a handler action (or the handler's start) of that request did not
-	// return within 5 s; the run was cut there and the request counts as not completed
-	Stuck int `json:"stuck"`
+	// return; the run was cut there and the request counts as not completed.  Hung: for two
+	// seconds on end a goroutine was parked on a mutex of rest/handler meanwhile (a hang of the
+	// code under test); without that it is an executor error (machine too slow)
+	Stuck int  `json:"stuck"`
+	Hung  bool `json:"hung"`
 	// server cases: http.Server.ReadTimeout / WriteTimeout after withTimeout(), ng.timeout
 	ReadNs  int64  `json:"read_ns"`
 	WriteNs int64  `json:"write_ns"`
@@ -562,17 +675,11 @@ func runSeqCore(c SeqCase, build func(work http.HandlerFunc) (http.Handler, func
 			return
 		}
 		q := reqs[i]
+		w, rg := unwrapRec(w)
 		q.t1 = time.Now()
 		q.dlSeen, q.hasDl = r.Context().Deadline()
 		q.hgid.Store(gid())
 		close(q.hStarted)
-		defer func() {
-			if p := recover(); p != nil {
-				k, v := classifyPanic(p)
-				q.acks <- hack{obs: []any{"panic", k, v}, ended: true}
-				panic(p)
-			}
-		}()
 		rcdl := false
 		gate := func() {
 			<-q.gate
@@ -581,6 +688,19 @@ func runSeqCore(c SeqCase, build func(work http.HandlerFunc) (http.Handler, func
 				doRCDeadline(w)
 			}
 		}
+		defer func() {
+			if p := recover(); p != nil {
+				k, v := classifyPanic(p)
+				if rg != nil {
+					// a RecoverHandler above: its reply and the return are actions still to come
+					rg.armed, rg.gate, rg.ack = true, gate, func(a hack) { q.acks <- a }
+					q.acks <- hack{obs: []any{"panic", k, v}}
+				} else {
+					q.acks <- hack{obs: []any{"panic", k, v}, ended: true}
+				}
+				panic(p)
+			}
+		}()
 		for _, a := range q.in.Script {
 			switch a[0].(string) {
 			case "rcdl":
@@ -690,10 +810,9 @@ func runSeqCore(c SeqCase, build func(work http.HandlerFunc) (http.Handler, func
 		case <-time.After(5 * time.Second):
 			return false
 		}
-		var a hack
-		select {
-		case a = <-q.acks:
-		case <-time.After(5 * time.Second):
+		a, ok, hung := waitHack(q.acks)
+		if !ok {
+			out.Hung = hung
 			return false
 		}
 		if a.wto && !q.sSeen {
